@@ -4,6 +4,7 @@ import (
 	"encoding/json"
 	"fmt"
 	"net/http/httptest"
+	"net/url"
 	"path/filepath"
 	"strings"
 	"testing"
@@ -19,7 +20,10 @@ import (
 type TokOp struct {
 	Kind string `json:"kind"` // create | revoke | http | ws | restart
 	Tok  int    `json:"tok"`  // >=0 index into issued tokens (mod len); -1 unknown; -2 admin
-	Rt   int    `json:"rt"`   // route selector for http
+	// Mut (revoke only): 0 = the token itself; otherwise a never-issued look-alike derived from it: 1 letter case swapped,
+	// 2 first 8 characters + "%", 3 "%", 4 underscores of the same length, 5 one character replaced by "_", 6 "%" + last 8
+	Mut int `json:"mut,omitempty"`
+	Rt  int `json:"rt"` // route selector for http
 }
 
 // C10Plan is a sequence of operations.
@@ -67,6 +71,7 @@ func runC10(p *C10Plan) (*stats.Case, error) {
 	defer func() { srv.Close(); s.Close() }()
 
 	var issued []string
+	lookAlikes := 0
 	live := map[string]bool{}
 	everRevoked := map[string]bool{}
 	pick := func(i int) string {
@@ -172,13 +177,20 @@ func runC10(p *C10Plan) (*stats.Case, error) {
 			}
 		case "revoke":
 			tok := pick(op.Tok)
+			if op.Mut != 0 {
+				tok = lookAlike(tok, op.Mut)
+				if live[tok] || tok == c10Admin {
+					break // the look-alike happens to be a real token: nothing to learn
+				}
+				lookAlikes++
+			}
 			// a user token must not be able to revoke
 			if len(issued) > 0 && live[issued[0]] && tok != issued[0] {
 				if r2, _ := s.Do("DELETE", "/api/v1/access/"+tok, auth(issued[0]), nil); r2.Code != 401 {
 					return nil, fmt.Errorf("%s: non-admin token revoked a token (%d)", where, r2.Code)
 				}
 			}
-			resp, pan := s.Do("DELETE", "/api/v1/access/"+tok, auth(c10Admin), nil)
+			resp, pan := s.Do("DELETE", "/api/v1/access/"+url.PathEscape(tok), auth(c10Admin), nil)
 			if pan != nil || resp.Code >= 500 {
 				return nil, fmt.Errorf("%s: revoke answered %d %s (panic %v)", where, resp.Code, resp.Body, pan)
 			}
@@ -253,9 +265,46 @@ func runC10(p *C10Plan) (*stats.Case, error) {
 			wsChecks++
 		}
 	}
-	cl := map[string]int64{"sequences": 1, "ops": int64(len(p.Ops)), "tokens_issued": int64(len(issued)), "ws_checks": int64(wsChecks), "restarts": int64(restarts),
+	cl := map[string]int64{"revocations_of_look_alikes": int64(lookAlikes), "sequences": 1, "ops": int64(len(p.Ops)), "tokens_issued": int64(len(issued)), "ws_checks": int64(wsChecks), "restarts": int64(restarts),
 		"with_create_revoke_auth": b2i(sawCRA), "with_restart_between": b2i(restartBetween)}
 	return &stats.Case{Sig: stats.Sig(fmt.Sprint(p.Ops)), Nontrivial: sawCRA && restartBetween, Classes: cl, Sample: p}, nil
+}
+
+// lookAlike derives a never-issued value from a token: what SQL pattern matching, case folding or prefix matching would
+// confuse with it.
+func lookAlike(tok string, mut int) string {
+	switch mut {
+	case 1:
+		b := []byte(tok)
+		for i, c := range b {
+			switch {
+			case c >= 'a' && c <= 'z':
+				b[i] = c - 32
+			case c >= 'A' && c <= 'Z':
+				b[i] = c + 32
+			}
+		}
+		return string(b)
+	case 2:
+		if len(tok) > 8 {
+			return tok[:8] + "%"
+		}
+		return tok + "%"
+	case 3:
+		return "%"
+	case 4:
+		return strings.Repeat("_", len(tok))
+	case 5:
+		if len(tok) > 3 {
+			return tok[:3] + "_" + tok[4:]
+		}
+		return "_"
+	default:
+		if len(tok) > 8 {
+			return "%" + tok[len(tok)-8:]
+		}
+		return "%" + tok
+	}
 }
 
 var propC10 = Prop[*C10Plan]{
@@ -275,6 +324,9 @@ var propC10 = Prop[*C10Plan]{
 				op.Tok = rapid.IntRange(0, 12).Draw(t, "ti")
 			}
 			op.Rt = rapid.IntRange(0, 3).Draw(t, "rt")
+			if op.Kind == "revoke" && rapid.IntRange(0, 2).Draw(t, "mutk") == 0 {
+				op.Mut = rapid.IntRange(1, 6).Draw(t, "mut")
+			}
 			p.Ops = append(p.Ops, op)
 		}
 		return p
